@@ -70,7 +70,10 @@ def run(chk, tier, replay):
         else:
             raise common.InfraError("MC_Bloom failed\n" + r.out[-2000:])
     chk.add_tlc(r)
-    cases = r.cases
+    # the typed entry points on every value token of the catalogue (short histories)
+    rt = common.tlc_ok(common.run_tlc("MC_Bloom", cfg="MC_Bloom_typed", timeout=3000), "MC_Bloom typed")
+    chk.add_tlc(rt)
+    cases = r.cases + rt.cases
     lines, exp = bloom_lines(cases)
     res, faults, leaky = common.run_harness_leaks(binary, lines)
     for cid in leaky:
